@@ -327,7 +327,7 @@ def random_child(arg):
 def run_random(case, out, fail):
     rng = core.rng_for(case["seed"], ID, case["idx"])
     prog = progs.gen_program(rng, "vp14_%d_%d" % (case["seed"], case["idx"]), p_explicit=0.25 if case["idx"] % 3 == 0 else 0.1, p_hidden=0.5,
-                             p_init=0.2 if case["idx"] % 2 else 0.4, p_ext=0.2)
+                             p_init=0.2 if case["idx"] % 2 else 0.4, p_ext=0.2, p_guard=0)
     if case["idx"] % 4 == 1:
         # a memento function is the default value of a parameter of another one of its module, which calls it through
         # that parameter: named in the function's header, so part of its closure
